@@ -166,6 +166,46 @@ func checkWriteBatch(c *an.Ctx, id string) {
 				}
 			}
 			c.Check(kept, id, "batch-cleanup-error-kept:"+an.FuncName(fn), "the error of the batch commit is not dropped: it is joined into the result of the deletion", deferred, doneCall, "", nil)
+			// … exactly when the commit failed: under done() != nil every exit of the deferred closure has
+			// stored an error built from it; under done() == nil no such store happens
+			dt, dff := c.T(deferred), c.F(deferred)
+			dErr := dt.Of(doneCall)
+			isRec := func(in ssa.Instruction) bool {
+				st, isSt := in.(*ssa.Store)
+				return isSt && an.IsErrorType(st.Val.Type()) && strings.Contains(dt.ErrShape(st.Val)+dt.Of(st.Val), dErr)
+			}
+			// the joined value may be built by errors.Join(prev, fmt.Errorf("…%w", derr)): look through one call
+			isRecDeep := func(in ssa.Instruction) bool {
+				if isRec(in) {
+					return true
+				}
+				st, isSt := in.(*ssa.Store)
+				if !isSt || !an.IsErrorType(st.Val.Type()) {
+					return false
+				}
+				if call, isCall := st.Val.(*ssa.Call); isCall {
+					for _, a := range call.Call.Args {
+						for _, v := range append(an.VariadicArgs(a), a) {
+							if v != nil && strings.Contains(dt.ErrShape(v)+dt.Of(v), dErr) {
+								return true
+							}
+						}
+					}
+				}
+				return false
+			}
+			prF := dff.Prune(an.NE(dErr, "nil"))
+			okRec := len(prF.Returns()) > 0
+			for _, r := range prF.Returns() {
+				okRec = okRec && (an.Flow{Fn: deferred, Skip: prF.Removed}).MustPrecede(isRecDeep, r)
+			}
+			prS := dff.Prune(an.EQ(dErr, "nil"))
+			an.Instrs(deferred, func(in ssa.Instruction) {
+				if isRecDeep(in) && prS.Reachable(in.Block()) {
+					okRec = false
+				}
+			})
+			c.Check(okRec, id, "batch-cleanup-error-recorded-iff-failed:"+an.FuncName(fn), "the deletion's error is extended with the commit error exactly when the commit failed", deferred, doneCall, "", nil)
 		}
 	}
 	c.Min(id, "functions opening a write batch", nCallers, 2)
